@@ -268,6 +268,10 @@ fn additional_menu() -> Vec<Item> {
         fixed("TSIG with MAC size overrunning its RDATA", { let mut rd = sha256.clone(); rd.extend([0, 0, 0, 0, 0, 1, 1, 44, 0, 40, 1, 2, 3]); rr(&name("nokey."), T_TSIG, 255, 0, &rd) }),
         fixed("TSIG known key name, other algorithm (hmac-sha1)", tsig(&name("known."), &name("hmac-sha1."), 255, 0)),
         fixed("TSIG owned by a pointer to the QNAME", tsig(&[0xc0, 0x0c], &sha256, 255, 0)),
+        // versions whose low bits are zero (appended so that the SMALL_MENU indices stay put)
+        fixed("OPT version 16", opt(1232, 0x0010_0000, &[])),
+        fixed("OPT version 0x80", opt(1232, 0x0080_0000, &[])),
+        fixed("OPT version 0xf0, DO", opt(1232, 0x00f0_8000, &[])),
     ]
 }
 const SMALL_MENU: [usize; 8] = [0, 4, 6, 10, 15, 18, 24, 26];
